@@ -45,7 +45,7 @@ func (s Style) String() string {
 	}
 	z := ""
 	if s.Zero >= 0 {
-		z = fmt.Sprintf(", one (0,nil) read before chunk #%d", s.Zero)
+		z = fmt.Sprintf(", one (0,nil) read inserted at chunk position %d", s.Zero)
 	}
 	return t + " " + w + z
 }
